@@ -40,16 +40,25 @@ type ConcProg struct {
 	Yield int     `json:"yield"` // Gosched at every Yield-th hook call (0: never)
 	Gs    []ConcG `json:"gs"`
 	Seg   int64   `json:"seg"`
+	// NoList drops the list append from the writers (Merge duplicates list elements: recorded finding c15-merge-list-duplication)
+	NoList bool `json:"nolist,omitempty"`
 }
 
 var concKeys = []string{"k1", "k2", "k3", "k4"}
 
 func genConcProg(maxG int, modes []int, merge, backup bool) *rapid.Generator[Case] {
 	return rapid.Custom(func(t *rapid.T) Case {
-		c := Case{Cfg: genConfig(modes, []int64{400, 2000, 8192}).Draw(t, "cfg")}
+		segs := []int64{400, 2000, 8192}
+		if merge {
+			segs = []int64{300, 400, 1000} // several segments, so that Merge has work to do
+		}
+		c := Case{Cfg: genConfig(modes, segs).Draw(t, "cfg")}
 		p := &ConcProg{DBs: rapid.IntRange(1, 2).Draw(t, "dbs"), Yield: rapid.SampledFrom([]int{0, 1, 2, 3, 5, 8}).Draw(t, "yield")}
 		if merge || backup {
 			p.DBs = 1
+		}
+		if merge && Known("c15-merge-list-duplication") {
+			p.NoList = true
 		}
 		ng := rapid.IntRange(2, maxG).Draw(t, "ng")
 		for g := 0; g < ng; g++ {
@@ -105,6 +114,8 @@ type concRec struct {
 	Scan2    map[string]int // reader: PrefixScan over all keys
 	List     []int          // reader in KeyVal mode: the stamp log
 	List2    []int
+	Set      []int // reader in KeyVal mode: the stamps in the set, sorted
+	Set2     []int
 	Err      string
 	Kind     string // "", backup
 	Dir      string
@@ -121,6 +132,9 @@ func atoi(b []byte) int {
 func readVer(tx *nutsdb.Tx) (int, error) {
 	e, err := tx.Get("v", []byte("ver"))
 	if err != nil || e == nil {
+		if os.Getenv("VERIF_DEBUG") != "" {
+			fmt.Println("readVer:", e, err)
+		}
 		return 0, nil // absent: version 0
 	}
 	return atoi(e.Value), nil
@@ -171,6 +185,19 @@ func readList(tx *nutsdb.Tx) []int {
 	return out
 }
 
+func readSet(tx *nutsdb.Tx) []int {
+	l, err := tx.SMembers("s", []byte("set"))
+	if err != nil {
+		return []int{}
+	}
+	out := make([]int, len(l))
+	for i, v := range l {
+		out[i] = atoi(v)
+	}
+	sort.Ints(out)
+	return out
+}
+
 type concResult struct {
 	Recs     []concRec
 	Deadlock string
@@ -211,7 +238,12 @@ func runConc(c Case, dirs []string, dbs []*nutsdb.DB, backupRoot string) concRes
 					for atomic.LoadInt64(&progress) < int64(i*2) && time.Since(start) < 200*time.Millisecond {
 						runtime.Gosched()
 					}
-					_ = db.Merge()
+					r := concRec{G: gi, I: i, DB: g.DB, Kind: "merge", Inv: time.Since(start)}
+					if err := db.Merge(); err != nil {
+						r.Err = err.Error()
+					}
+					r.Ret = time.Since(start)
+					add(r)
 				}
 				return
 			case "backup":
@@ -243,8 +275,10 @@ func runConc(c Case, dirs []string, dbs []*nutsdb.DB, backupRoot string) concRes
 							}
 						}
 						if structs {
-							if err := tx.RPush("l", []byte("log"), s); err != nil {
-								return err
+							if !p.NoList {
+								if err := tx.RPush("l", []byte("log"), s); err != nil {
+									return err
+								}
 							}
 							if err := tx.SAdd("s", []byte("set"), s); err != nil {
 								return err
@@ -265,12 +299,14 @@ func runConc(c Case, dirs []string, dbs []*nutsdb.DB, backupRoot string) concRes
 					r.Scan, r.Scan2 = readScans(tx)
 					if structs {
 						r.List = readList(tx)
+						r.Set = readSet(tx)
 					}
 					runtime.Gosched()
 					r.Ver2, _ = readVer(tx)
 					r.Vals2 = readKeys(tx, t.Keys)
 					if structs {
 						r.List2 = readList(tx)
+						r.Set2 = readSet(tx)
 					}
 					return nil
 				}
@@ -318,10 +354,17 @@ func runConc(c Case, dirs []string, dbs []*nutsdb.DB, backupRoot string) concRes
 }
 
 // checkConc verifies the history of one database.
-func checkConc(recs []concRec, db int, structs bool, final map[string]int, finalVer int, finalList []int, haveFinal bool) error {
+func checkConc(recs []concRec, db int, structs, noList bool, final map[string]int, finalVer int, finalList, finalSet []int, haveFinal bool) error {
+	lists := structs && !noList
 	var writers, readers []concRec
 	for _, r := range recs {
 		if r.DB != db {
+			continue
+		}
+		if r.Kind == "merge" {
+			if r.Err != "" && !strings.Contains(r.Err, "at least 2") {
+				return fmt.Errorf("Merge failed: %s", r.Err)
+			}
 			continue
 		}
 		if r.Kind == "backup" {
@@ -379,6 +422,16 @@ func checkConc(recs []concRec, db int, structs bool, final map[string]int, final
 			}
 		}
 		if structs {
+			if len(finalSet) != len(writers) {
+				return fmt.Errorf("final stamp set has %d members, %d write transactions committed: %v", len(finalSet), len(writers), finalSet)
+			}
+			for i, x := range finalSet {
+				if x != i+1 {
+					return fmt.Errorf("final stamp set is not {1..W}: %v", finalSet)
+				}
+			}
+		}
+		if lists {
 			if len(finalList) != len(writers) {
 				return fmt.Errorf("final stamp log has %d entries, %d write transactions committed: %v", len(finalList), len(writers), finalList)
 			}
@@ -391,8 +444,8 @@ func checkConc(recs []concRec, db int, structs bool, final map[string]int, final
 	}
 	for _, r := range readers {
 		if r.Kind != "backup" {
-			if r.Ver != r.Ver2 || fmt.Sprint(r.Vals) != fmt.Sprint(r.Vals2) || fmt.Sprint(r.List) != fmt.Sprint(r.List2) {
-				return fmt.Errorf("read-only transaction g%d/%d saw the state change: ver %d then %d, %v then %v", r.G, r.I, r.Ver, r.Ver2, r.Vals, r.Vals2)
+			if r.Ver != r.Ver2 || fmt.Sprint(r.Vals) != fmt.Sprint(r.Vals2) || fmt.Sprint(r.List) != fmt.Sprint(r.List2) || fmt.Sprint(r.Set) != fmt.Sprint(r.Set2) {
+				return fmt.Errorf("read-only transaction g%d/%d saw the state change: ver %d then %d, %v then %v, list %v then %v, set %v then %v", r.G, r.I, r.Ver, r.Ver2, r.Vals, r.Vals2, r.List, r.List2, r.Set, r.Set2)
 			}
 		}
 		v := r.Ver
@@ -412,7 +465,17 @@ func checkConc(recs []concRec, db int, structs bool, final map[string]int, final
 				}
 			}
 		}
-		if structs && r.List != nil || structs && v > 0 && r.Kind != "backup" {
+		if structs && r.Set != nil {
+			if len(r.Set) != v {
+				return fmt.Errorf("reader g%d/%d (%s) saw version %d but a stamp set of %d members: %v", r.G, r.I, r.Kind, v, len(r.Set), r.Set)
+			}
+			for i, x := range r.Set {
+				if x != i+1 {
+					return fmt.Errorf("reader g%d/%d (%s) saw a stamp set that is not {1..v}: %v", r.G, r.I, r.Kind, r.Set)
+				}
+			}
+		}
+		if lists && r.List != nil || lists && v > 0 && r.Kind != "backup" {
 			if len(r.List) != v {
 				return fmt.Errorf("reader g%d/%d saw version %d but a stamp log of %d entries: %v", r.G, r.I, v, len(r.List), r.List)
 			}
